@@ -728,6 +728,12 @@ def check(ctx: Ctx):
     _guarded(ctx, "R09.1", c09.check_codec_width_relational)
     if n < 1:
         ctx.undecided("R03.4.floor", None, None, "floor:R03.4", f"found {n} add_labelmap_entry sites in the threshold matcher, expected >= 1")
+    # results of later evaluations (another group, a flipped copy, the exchanged pair, a second
+    # threshold) are only meaningful if no step writes into the caller's arrays (R15.8)
+    from . import c15 as _c15
+    from . import c03 as _c03
+
+    _c03._guarded(ctx, "R15.8", _c15.check_param_aliasing)
 
 
 # ----------------------------------------------------------------------------------------
